@@ -7,7 +7,7 @@ SMALL_FAMS = ("F3a", "F3b", "F3c", "F4", "F4b", "F8f", "FG", "F5e", "FK", "F3e")
 ALL_FAMS = ["F1a", "F1b", "F1c", "F1d", "F1e", "F1f", "F1g", "F2a", "F2b", "F2c", "F2z", "F2s", "F3a", "F3b", "F3c", "F3d", "F4", "F4b", "F5a", "F5b", "F5c", "F5d", "F7a", "F7b", "F7c", "F8", "F8g", "F8f", "F8h", "F9", "FL", "FW", "FP", "FG", "FT", "F5e", "FK", "F1n", "F2d", "F7d", "F3e", "F5f", "F5g", "F5h", "F3f", "F8i", "F2e", "FO"]
 # quick-tier sample size per family (the thorough tier takes every program of every family)
 QUICK_N = {"F1a": 500, "F1b": 250, "F1c": 150, "F1d": 250, "F1e": 100, "F1f": 250, "F1g": 100, "F2a": 400, "F2z": 60, "F2s": 60, "F2b": 63,
-           "F2c": 120, "F3a": 150, "F3b": 80, "F3c": 12, "F4": 26, "F5a": 200, "F5b": 120, "F5c": 200, "F5d": 40, "F3d": 50, "F4b": 60, "F7a": 84, "F7b": 250, "F7c": 200, "F8": 400, "F8g": 450, "F8f": 80, "F9": 350, "FL": 80, "FW": 10, "F4": 60, "F3d": 60, "F3b": 81, "F2c": 136, "FK": 10, "F5g": 20, "F5f": 30, "F5h": 105, "F3f": 48, "F8i": 81}
+           "F2c": 120, "F3a": 150, "F3b": 80, "F3c": 12, "F4": 26, "F5a": 200, "F5b": 120, "F5c": 200, "F5d": 40, "F3d": 50, "F4b": 60, "F7a": 84, "F7b": 250, "F7c": 200, "F8": 400, "F8g": 450, "F8f": 80, "F9": 350, "FL": 80, "FW": 10, "F4": 60, "F3d": 60, "F3b": 81, "F2c": 136, "FK": 10, "F5g": 20, "F5f": 30, "F5h": 105, "F3f": 48, "F8i": 144}
 
 
 SIGNED_PLAIN = [dict(name="pc", kind="s", w=8, sg=True, n=1), dict(name="pca", kind="a", w=8, sg=True, n=4)]
@@ -174,7 +174,7 @@ def c02(tier):
         fn = sorted(render.calls_in(p["body"]))
         src = vocab.source(p["body"], fn)
         cid = "%s-%05d" % (p["fam"], i)
-        cases.append(dict(id=cid, fam=p["fam"], body=p["body"], fnames=fn, locals=p.get("locals"),
+        cases.append(dict(id=cid, fam=p["fam"], body=p["body"], fnames=fn, locals=p.get("locals"), xio=True,
                           variants=[dict(name="O0", args=["-O0"], src=src), dict(name="O1", args=["-O1"], src=src),
                                     dict(name="O2", args=["-O2"], src=src), dict(name="O3", args=["-O3"], src=src)]))
         bodies[cid] = p["body"]
